@@ -25,6 +25,14 @@ func NewSession(run *hlib.Run, rng *hlib.Rng) *Session {
 	return &Session{R: NewRing(), Run: run, Rng: rng}
 }
 
+// NewSessionBackend: like NewSession with every node backed by the given KV back-end ("memory"|"sqlite").
+func NewSessionBackend(run *hlib.Run, rng *hlib.Rng, backend string) *Session {
+	s := NewSession(run, rng)
+	s.R.Backend = backend
+	run.Count("backend:" + backend)
+	return s
+}
+
 // Do executes one op on the real nodes and emits `op => result | dump`. Returns the result token.
 func (s *Session) Do(toks ...string) string {
 	if s.Dead {
